@@ -9,3 +9,28 @@ def _changes(scenario):
 
 def always(scenario, trace, line):
     return True
+
+
+def _under(p, q):
+    """q lies beneath p at a path element boundary"""
+    return len(q) > len(p) and q.startswith(p) and q[len(p)] in "/["
+
+
+def v3_rollback_of_subtree_delete(scenario, trace, line):
+    """F44: at the offending line some transaction is in its Rollback phase whose change DELETES a path that had stored
+    values beneath it when it was committed (a sub-tree delete) - the v3 controller captures only the deleted path itself
+    as rollback value, so the rollback restores nothing beneath it and leaves the tombstone in place."""
+    if not trace or line >= len(trace):
+        return False
+    L = trace[line]
+    stored = set()
+    for prev in trace[:line + 1]:
+        for t in prev["txs"]:
+            stored.update(p for p, v in t["values"].items() if v != "<del>")
+    for t in L["txs"]:
+        if t["phase"] != "Rollback":
+            continue
+        for p, v in t["values"].items():
+            if v == "<del>" and any(_under(p, q) for q in stored):
+                return True
+    return False
